@@ -326,6 +326,36 @@ func init() {
 			// c12_remark_app_section_mirrors_remote_witness: the remote created the data
 			// channel; its application section is kept in this side's next offer
 			{Ops: append(append([]nOp{{P: 1, K: nDataChannel}}, nExchange(1)...), nOp{P: 0, K: nOffer})},
+			// provisional answers on both sides, then the final answer; offers in
+			// have-local-pranswer / have-remote-pranswer and after the exchange
+			{Engine: [2]int{1, 2}, Ops: append(append([]nOp{
+				{P: 0, K: nAddTrack, Kind: 2, ID: "ta", Stream: "s1"},
+				{P: 1, K: nAddTrack, Kind: 1, ID: "tb", Stream: "s2"}},
+				nOp{P: 0, K: nOffer}, nOp{P: 0, K: nSetLocalO}, nOp{P: 1, K: nDeliverO}, nOp{P: 1, K: nAnswer},
+				nOp{P: 1, K: nSetLocalP}, nOp{P: 1, K: nOffer}, nOp{P: 0, K: nDeliverP}, nOp{P: 0, K: nOffer},
+				nOp{P: 1, K: nAddTcvKind, Kind: 2, Dir: 3}, nOp{P: 1, K: nAnswer},
+				nOp{P: 1, K: nSetLocalA}, nOp{P: 0, K: nDeliverA}),
+				nOp{P: 0, K: nOffer}, nOp{P: 1, K: nOffer})},
+			// CreateOffer's error path: the remote answer names a mid ("9") this side has no
+			// transceiver for; the sender of the transceiver matched BEFORE the failing
+			// section keeps its setNegotiated mark, so the next startRTPSenders calls Send on
+			// it and AddEncoding is refused afterwards (errRTPSenderSendAlreadyCalled)
+			{Ops: []nOp{
+				{P: 0, K: nAddTcvKind, Kind: 2, Dir: 3},
+				{P: 0, K: nAddTcvKind, Kind: 1, Dir: 3},
+				{P: 0, K: nOffer}, {P: 0, K: nSetLocalO}, {P: 1, K: nDeliverO}, {P: 1, K: nAnswer}, {P: 1, K: nSetLocalA},
+				{P: 0, K: nDeliverA, MidTo: "9"},
+				{P: 0, K: nAddTrack, Kind: 2, ID: "ta", Stream: "s1", RID: "q"},
+				{P: 0, K: nOffer},
+				{P: 0, K: nSetLocalO},
+				{P: 0, K: nDeliverA},
+				{P: 0, K: nAddEncoding, TI: 0, Kind: 2, ID: "ta", Stream: "s1", RID: "h"},
+				{P: 0, K: nClose}, {P: 0, K: nOffer}}},
+			// Close in the middle of an exchange, calls afterwards
+			{Ops: []nOp{
+				{P: 0, K: nAddTrack, Kind: 2, ID: "ta", Stream: "s1"}, {P: 0, K: nDataChannel},
+				{P: 0, K: nOffer}, {P: 0, K: nSetLocalO}, {P: 1, K: nDeliverO}, {P: 1, K: nClose},
+				{P: 1, K: nAnswer}, {P: 1, K: nOffer}, {P: 0, K: nClose}, {P: 0, K: nOffer}, {P: 0, K: nDeliverA}}},
 			// RemoveTrack / ReplaceTrack(nil) / ReplaceTrack then offer
 			{Engine: [2]int{3, 1}, Ops: []nOp{
 				{P: 0, K: nAddTrack, Kind: 2, ID: "ta", Stream: "s1"},
@@ -502,6 +532,9 @@ func tdRun(c tdCase) (V, string, Verdict) {
 			}
 			if strings.Join(got[0].RIDs, ",") != strings.Join(want, ",") {
 				v = Fail("roundtrip-rids-differ", fmt.Sprintf("%v vs %v", got[0].RIDs, want))
+			} else if len(got[0].SSRCs) != 0 || got[0].RTX != nil || got[0].FEC != nil {
+				// c12_track_details_roundtrip_encodings: the simulcast track carries the rids only
+				v = Fail("roundtrip-simulcast-carries-ssrc", fmt.Sprintf("%+v", got[0]))
 			}
 		}
 	}
